@@ -438,10 +438,12 @@ func (r *runner) Do(op []string) (string, bool) {
 //	miss  rounds whose content was applied (it is the running config afterwards) but some listener
 //	      was not notified for it
 //	lost  rounds after which — all triggers finished, the last one started after the last write —
-//	      the running config is not the content on disk
+//	      the running config is not the content on disk although a real startup accepts the files
+//	rej   rounds after which the running config changed although a real startup rejects the files
 func (r *runner) stress(g, rounds, mode int) string {
-	dbl, miss, lost, applied := 0, 0, 0, 0
-	last, disk := "", ""
+	dbl, miss, lost, applied, rej := 0, 0, 0, 0, 0
+	last, disk, su := "", "", "-"
+	before, _ := r.cfg.GetHashes()
 	if rounds < 1 {
 		rounds = 1
 	}
@@ -485,8 +487,15 @@ func (r *runner) stress(g, rounds, mode int) string {
 		}
 		wg.Wait()
 		final := toks[len(toks)-1]
+		r.curC = final
 		ch, _ := r.cfg.GetHashes()
-		if ch != hashOf(final) {
+		// what a real startup says about the files now (the rules file may be one startup rejects:
+		// then every one of these reloads must be refused)
+		if su = r.startupVerdict(); su == "fail" {
+			if ch != before {
+				rej++
+			}
+		} else if ch != hashOf(final) {
 			lost++
 		}
 		r.stressMu.Lock()
@@ -530,7 +539,7 @@ func (r *runner) stress(g, rounds, mode int) string {
 	}
 	// the schedule is the implementation's choice: hand the state it ended in to the model
 	kit.Ext("final %s %s %s %s = ok", last, r.tok(rh), ns, disk)
-	return fmt.Sprintf("rounds=%d listeners=%d applied=%d dbl=%d miss=%d lost=%d", rounds, len(r.counts), applied, dbl, miss, lost)
+	return fmt.Sprintf("rounds=%d listeners=%d su=%s applied=%d dbl=%d miss=%d lost=%d rej=%d", rounds, len(r.counts), su, applied, dbl, miss, lost, rej)
 }
 
 func main() { kit.Main(comp{}, nil) }
